@@ -15,6 +15,7 @@ import GwModel.Exec.Machine
 import GwModel.ExecSeq
 import GwModel.ScrubApply
 import GwModel.MergeSig
+import GwModel.NewOpts
 /-! gwdrv: one JSON object per line in, one per line out (DESIGN §2.2). Core + Lean.Data.Json only. -/
 open Lean Codec
 
@@ -253,6 +254,23 @@ def decArgDefs (js : List Json) : List Ms.ArgDef :=
   js.map fun a => { name := getStr a "name", type := decTy ((getObj? a "type").getD (Json.mkObj [])),
                     default := (getObj? a "default").bind fun d => match d with | .null => none | _ => some (decV d) }
 
+/-- {"opts":[{"k":"planner","id":n} | {"k":"priorities","l":[..]} | {"k":"factory","f":n} |
+    {"k":"middlewares","ms":[{"r":bool,"id":n}]} | {"k":"other"}]} through `Nw.build` -/
+def runNewOptions (j : Json) : Json :=
+  let opts : List Nw.Opt := (getArr j "opts").map fun o =>
+    match getStr o "k" with
+    | "planner" => .planner (getNat o "id")
+    | "priorities" => .priorities (strList o "l")
+    | "factory" => .factory (getNat o "f")
+    | "middlewares" => .middlewares ((getArr o "ms").map fun m => ⟨getBool m "r", getNat m "id"⟩)
+    | _ => .other
+  let b := Nw.build opts
+  let nats (l : List Nat) : Json := .arr (l.map fun n => Json.num (JsonNumber.fromNat n)).toArray
+  Json.mkObj [("planner", .num (JsonNumber.fromNat b.planner)),
+    ("toldPriorities", match b.toldPriorities with | some l => .arr (l.map Json.str).toArray | none => .null),
+    ("toldFactory", match b.toldFactory with | some f => .num (JsonNumber.fromNat f) | none => .null),
+    ("response", nats b.response), ("request", nats b.request)]
+
 /-- {"a":{"type","args","default"},"b":{…}}: do merge.go's comparisons accept the two declarations of one field -/
 def runMergeSig (j : Json) : Json :=
   let fld (o : Json) := (decTy ((getObj? o "type").getD (Json.mkObj [])), decArgDefs (getArr o "args"))
@@ -265,6 +283,7 @@ def handle (j : Json) : Json :=
   | "mono" => Json.mkObj [("data", encVal (Mono.mono (decCase j)))]
   | "merge" => runMerge j
   | "mergesig" => runMergeSig j
+  | "new-options" => runNewOptions j
   | "plan" => PlanCodec.runPlan j
   | "trace" => runTrace j
   | "exec" => runExec j
